@@ -1,6 +1,7 @@
 """C05 — run-time specification changes take full effect; push/pop is an exact stack."""
 from rulelib import *
 from report import CheckError
+import table as T
 from fdi import FDI, Const, Agg, Sym, Ref
 from locks import guard_classes
 
@@ -83,48 +84,76 @@ def run(R, ctx):
         raise CheckError(f"only {nparse} handle functions parsing a specification found")
 
     # R05.2 -----------------------------------------------------------------------------------
+    # decision rows of the three stack operations (private accessors around the lock / the stack are inlined)
+    READ, UPD, PARSE = r'^std::sync::RwLock::<T>::read$', r'LogSpecification::update_from$', r'^log_specification::LogSpecification::parse$'
+    EFF2 = [VEC_MUT, READ, UPD, PARSE, r'^std::sync::RwLock::<T>::write$']
+    NI2 = [PARSE, UPD, r'max_level_with_writers$', r'util::eprint_err$']
+
+    def stack_effs(r):
+        return [(i, e) for i, e in enumerate(r.effects) if re.search(VEC_MUT, e[0]) and 'spec_stack' in r.long(e[1][0])]
     for m in ('push_temp_spec', 'parse_and_push_temp_spec'):
         b = handle[m]
-        p = ctx.ip.prov(b.path)
-        pushes = [(bb, t) for bb, t in stack_mutations(ctx, b) if callee_name(t).endswith('::push')]
-        others = [(bb, t) for bb, t in stack_mutations(ctx, b) if not callee_name(t).endswith('::push')]
-        R.check('R05.2', f"{b.path}|one-push", len(pushes) == 1 and not others,
-                "exactly one push and no other mutation of the stack", f"{len(pushes)} pushes / {len(others)} other stack mutations in {b.path}", where=b.loc())
-        for bb, t in pushes:
-            roots = p.op_roots(t['args'][1])
-            saved_active = any(r[0] == 'call' and r[1] == 'std::sync::RwLock::<T>::read' for r in roots) and \
-                any(r[0] == 'via' and r[1].endswith('as std::clone::Clone>::clone') for r in roots) and \
-                not any(r[0] == 'param' and r[1] >= 2 for r in roots)
-            R.check('R05.2', f"{b.path}|push-saves-active", saved_active,
-                    "pushed value = clone of the specification read from the spec lock",
-                    "the pushed value is not (only) a clone of the currently active specification", where=b.loc(bb),
-                    witness=f"roots {sorted(map(str, roots))[:6]}")
-            stores = [s[0] for s in cg.call_sites_reaching(b, STORE)]
-            follows = must_pass_after(b, bb, stores, avoid=try_break_blocks(b))
-            R.check('R05.2', f"{b.path}|activate-after-push", follows,
-                    "every non-error path after the push activates the new specification",
-                    "a path after the push does not activate the new specification", where=b.loc(bb))
+        rows = FDI(f, effects=EFF2, no_inline=NI2, max_steps=20000).run(b.path, arg_names=['self', 'new_spec'])
+        bad = {}
+        n = 0
+        for r in rows:
+            if r.undecided:
+                raise CheckError(f"R05.2 {b.path}: UNDECIDED {r.undecided}")
+            if isinstance(r.result, Agg) and r.result.variant == 'Err':
+                continue
+            if any(v == 'Err' and re.match(r'^variant\(std::sync::RwLock::<T>::(read|write)#', a) for a, v in r.cond):
+                continue            # poisoned specification lock: reported / panics; poisoning itself is excluded by C10 R10.2
+            se = stack_effs(r)
+            upd = [(i, e) for i, e in enumerate(r.effects) if re.search(UPD, e[0])]
+            if not se and not upd:
+                continue            # a path that ended before doing anything (e.g. the poisoned-lock panic path is cut)
+            n += 1
+            if len(se) != 1 or not se[0][1][0].endswith('::push'):
+                bad['one-push'] = f"{[e[0].split('::')[-1] for _, e in se]} instead of exactly one push on a successful path"
+                continue
+            pi, pe = se[0]
+            px = pe[2]['x'][1]
+            if not T.eff_indices(px, READ) or 'new_spec' in T.inputs_in(px) or T.eff_indices(px, PARSE):
+                bad['push-saves-active'] = "the pushed value is not (only) a clone of the currently active specification"
+            if len(upd) != 1 or upd[0][0] < pi:
+                bad['activate-after-push'] = "a successful path after the push does not activate the new specification (or activates it before saving the old one)"
+            else:
+                ux = upd[0][1][2]['x'][1]
+                okn = ('new_spec' in T.inputs_in(ux) and not T.eff_indices(ux, READ)) if m == 'push_temp_spec' else (bool(T.eff_indices(ux, PARSE)) and not T.eff_indices(ux, READ))
+                if not okn:
+                    bad['activate-after-push'] = "the specification activated after the push is not the new one"
+        if n < 1 and not bad:
+            raise CheckError(f"R05.2 {b.path}: no successful row with a stack operation found")
+        for key, okt in (('one-push', "exactly one push and no other mutation of the stack"), ('push-saves-active', "pushed value = clone of the specification read from the spec lock"),
+                         ('activate-after-push', "every successful path after the push activates the new specification")):
+            R.check('R05.2', f"{b.path}|{key}", key not in bad, okt, f"{b.path}: {bad.get(key)}", where=b.loc(), sample={'rows': n})
     b = handle['pop_temp_spec']
-    p = ctx.ip.prov(b.path)
-    pops = [(bb, t) for bb, t in stack_mutations(ctx, b) if callee_name(t).endswith('::pop')]
-    others = [(bb, t) for bb, t in stack_mutations(ctx, b) if not callee_name(t).endswith('::pop')]
-    R.check('R05.2', f"{b.path}|one-pop", len(pops) == 1 and not others, "exactly one pop", f"{len(pops)} pops, {len(others)} other mutations", where=b.loc())
-    for (sbb, callee, k) in cg.call_sites_reaching(b, STORE):
-        t = b.blocks[sbb]['term']
-        roots = set()
-        for a in t['args'][1:]:
-            roots |= p.op_roots(a)
-        from_pop = any(r[0] == 'call' and r[1].endswith('::pop') for r in roots) and not any(r[0] == 'call' and 'read' in r[1] for r in roots)
-        some_guard = False
-        for pbb, pt in pops:
-            for (okb, errb, how) in try_edges(b, pt['dest']['l']):
-                # Option: discriminant 1 = Some, 0 = None -> "err" edge of the helper is the Some edge
-                if C.dominates(b, errb, sbb) and not C.dominates(b, okb, sbb):
-                    some_guard = True
-        R.check('R05.2', f"{b.path}|activate-popped", from_pop and some_guard,
-                "the activated specification is the popped value, only on the Some edge",
-                "pop_temp_spec activates a value that is not the popped one, or activates on the empty-stack edge", where=b.loc(sbb),
-                witness=f"roots {sorted(map(str, roots))[:6]}")
+    rows = FDI(f, effects=EFF2, no_inline=NI2, max_steps=20000).run(b.path, arg_names=['self'])
+    bad = {}
+    kinds = set()
+    for r in rows:
+        if r.undecided:
+            raise CheckError(f"R05.2 {b.path}: UNDECIDED {r.undecided}")
+        se = stack_effs(r)
+        upd = [(i, e) for i, e in enumerate(r.effects) if re.search(UPD, e[0])]
+        wr = [e for e in r.effects if e[0].endswith('RwLock::<T>::write')]
+        if len(se) != 1 or not se[0][1][0].endswith('::pop'):
+            bad['one-pop'] = f"{[e[0].split('::')[-1] for _, e in se]} instead of exactly one pop"
+            continue
+        k = se[0][0] + 1
+        res = r.get(f"variant({se[0][1][0]}#{k})")
+        kinds.add(res)
+        if res == 'None' and (upd or wr):
+            bad['activate-popped'] = "pop on an empty stack still stores a specification"
+        if res == 'Some' and wr and any(v == 'Ok' for a, v in r.cond if a.startswith('variant(std::sync::RwLock::<T>::write#')):
+            ux = upd[0][1][2]['x'][1] if upd else None
+            if ux is None or T.eff_indices(ux, r'::pop$') != {k} or T.eff_indices(ux, READ):
+                bad['activate-popped'] = "the specification activated is not the popped one"
+    if not bad and kinds != {'Some', 'None'}:
+        raise CheckError(f"R05.2 {b.path}: pop outcome not recognised on the rows ({kinds})")
+    R.check('R05.2', f"{b.path}|one-pop", 'one-pop' not in bad, "exactly one pop", f"{b.path}: {bad.get('one-pop')}", where=b.loc())
+    R.check('R05.2', f"{b.path}|activate-popped", 'activate-popped' not in bad, "the activated specification is the popped value, only on the Some edge",
+            f"pop_temp_spec: {bad.get('activate-popped')}", where=b.loc())
 
     # R05.3 -----------------------------------------------------------------------------------
     b = ctx.body(r'^log_specification::LogSpecification::update_from$')
